@@ -54,11 +54,14 @@ func NewSymbols(n int) *Symbols {
 	l2 := append(append([]byte{}, l1[:20]...), []byte{0xee, 0xee, 0xee, 0xee, 0xee, 0xee, 0xee, 0xee, 0xee, 0xee, 0xee, 0xee}...)
 	s.Mods["L0"], s.Mods["L1"], s.Mods["L2"], s.Mods["L3"] = l0, l1, sdk.AccAddress(l2), sdk.AccAddress(append([]byte{}, l1[:20]...))
 	s.Mods["L4"] = sdk.AccAddress(append([]byte{}, l1[12:]...)) // the last 20 bytes of L1 as an address of its own
+	if n > 0 {                                                  // L5: the 20 bytes of the key-derived account A0 followed by 12 more — a long address sharing its first 20 bytes with an account that signs
+		s.Mods["L5"] = sdk.AccAddress(append(append([]byte{}, s.Addrs[0]...), []byte{0xee, 0xee, 0xee, 0xee, 0xee, 0xee, 0xee, 0xee, 0xee, 0xee, 0xee, 0xee}...))
+	}
 	return s
 }
 
 // LongTokens lists the tokens of the addresses that are not key-derived (see NewSymbols).
-var LongTokens = []string{"L0", "L1", "L2", "L3", "L4"}
+var LongTokens = []string{"L0", "L1", "L2", "L3", "L4", "L5"}
 
 // ModuleTokens lists the module account tokens in token order.
 var ModuleTokens = []string{"Mbond", "Mdist", "Ment", "Mfee", "Mgov", "Mnbond", "Mstr", "Mxfer"}
@@ -122,6 +125,10 @@ func (s *Symbols) Resolve(tok string) (string, error) {
 	case strings.HasPrefix(tok, "A"):
 		if i, err := s.AcctIndex(tok); err == nil {
 			return s.strs[i], nil
+		}
+	case strings.HasPrefix(tok, "UM"): // a module account spelled in upper case (a legal bech32 spelling of the same address)
+		if a, ok := s.Mods[tok[1:]]; ok {
+			return strings.ToUpper(a.String()), nil
 		}
 	case strings.HasPrefix(tok, "U"):
 		if i, err := s.AcctIndex("A" + tok[1:]); err == nil {
